@@ -1235,3 +1235,18 @@ pub fn generate(c: &mut Chooser) -> Scenario {
     let labels = g.labels.clone();
     Scenario { prog, layout, network, fee, q, n: 9, extra_lovelace: 0, utxo, labels }
 }
+
+/// distinct sources (default layout) of every generator program with <= k deviations, in enumeration order
+/// (used by C17 / C18, which only need many feature-rich, accepted programs)
+pub fn distinct_sources(k: usize) -> Vec<String> {
+    let mut seen = std::collections::HashSet::new();
+    let mut out = vec![];
+    let mut gen = |c: &mut Chooser| generate(c);
+    crate::engine::dbx::explore(k, &mut gen, &mut |_choices, _devs, sc| {
+        let src = render(&sc.prog, 0);
+        if seen.insert(src.clone()) {
+            out.push(src);
+        }
+    });
+    out
+}
